@@ -1,9 +1,9 @@
 """Properties decided by two engines: the library-level connection state machine (server_family) and the
 reference server (ref_family). Both parts run; coverage is merged, any violation of either part counts."""
 from vf import *
-import server_family, ref_family, lifecycle_family
+import server_family, ref_family, lifecycle_family, framing_family
 
-PARTS = {"C06": (server_family, ref_family), "C07": (server_family, ref_family), "C20": (server_family, lifecycle_family), "C14": (ref_family, lifecycle_family),
+PARTS = {"C06": (server_family, ref_family), "C07": (server_family, ref_family, framing_family), "C20": (server_family, lifecycle_family), "C14": (ref_family, lifecycle_family),
          "C19": (server_family, ref_family)}
 
 
@@ -25,11 +25,14 @@ def merge(a, b):
 
 
 def run(ctx, prop):
-    m1, m2 = PARTS[prop]
-    c1, a1, f1 = m1.collect(ctx, prop)
-    c2, a2, f2 = m2.collect(ctx, prop)
+    cov, assumptions, found = None, [], []
+    for m in PARTS[prop]:
+        c, a, f = m.collect(ctx, prop)
+        cov = c if cov is None else merge(cov, c)
+        assumptions += [x for x in a if x not in assumptions]
+        found += f
     level = "exploration" if prop == "C14" else "model_checking"
-    return conclude(ctx, level, merge(c1, c2), a1 + a2, f1 + f2)
+    return conclude(ctx, level, cov, assumptions, found)
 
 
 def replay(ctx, prop, obj):
@@ -38,4 +41,6 @@ def replay(ctx, prop, obj):
         return ref_family.replay(ctx, prop, obj)
     if k == "life":
         return lifecycle_family.replay(ctx, prop, obj)
+    if k == "chaos" and obj.get("scenario", {}).get("stream"):
+        return framing_family.replay(ctx, prop, obj)
     return server_family.replay(ctx, prop, obj)
